@@ -841,8 +841,23 @@ sse_rule_accw (OrcCompiler *p, void *user, OrcInstruction *insn)
 {
   const int src = p->vars[insn->src_args[0]].alloc;
   const int dest = p->vars[insn->dest_args[0]].alloc;
+  const int bytes = p->vars[insn->src_args[0]].size << p->loop_shift;
 
-  orc_sse_emit_paddw (p, src, dest);
+  if (bytes < ORC_REG_SIZE) {
+    /* only the low bytes hold elements of this iteration; what the rest of
+     * the register contains depends on how the value was computed */
+    const int tmp = orc_compiler_get_temp_reg (p);
+
+    orc_sse_emit_movdqa (p, src, tmp);
+#ifndef MMX
+    orc_sse_emit_pslldq_imm (p, 16 - bytes, tmp);
+#else
+    orc_sse_emit_psllq_imm (p, 8 * (8 - bytes), tmp);
+#endif
+    orc_sse_emit_paddw (p, tmp, dest);
+  } else {
+    orc_sse_emit_paddw (p, src, dest);
+  }
 }
 
 static void
@@ -850,13 +865,23 @@ sse_rule_accl (OrcCompiler *p, void *user, OrcInstruction *insn)
 {
   const int src = p->vars[insn->src_args[0]].alloc;
   const int dest = p->vars[insn->dest_args[0]].alloc;
+  const int bytes = p->vars[insn->src_args[0]].size << p->loop_shift;
 
+  if (bytes < ORC_REG_SIZE) {
+    /* only the low bytes hold elements of this iteration; what the rest of
+     * the register contains depends on how the value was computed */
+    const int tmp = orc_compiler_get_temp_reg (p);
+
+    orc_sse_emit_movdqa (p, src, tmp);
 #ifndef MMX
-  if (p->loop_shift == 0) {
-    orc_sse_emit_pslldq_imm (p, 12, src);
-  }
+    orc_sse_emit_pslldq_imm (p, 16 - bytes, tmp);
+#else
+    orc_sse_emit_psllq_imm (p, 8 * (8 - bytes), tmp);
 #endif
-  orc_sse_emit_paddd (p, src, dest);
+    orc_sse_emit_paddd (p, tmp, dest);
+  } else {
+    orc_sse_emit_paddd (p, src, dest);
+  }
 }
 
 static void
